@@ -1160,6 +1160,9 @@ where
             // ClassIntersection :: ClassSetOperand && [lookahead ≠ &]
             ClassSetOperator::Intersection => {
                 loop {
+                    if self.peek() == Some(0x26 /* & */) {
+                        return error("Unexpected character in class set intersection");
+                    }
                     let operand = self.consume_class_set_operand(in_negated_class)?;
                     result.intersect_operand(self.close_class_set_operand(operand));
                     match self.next() {
